@@ -283,6 +283,11 @@ async fn dial_happy_eyeballs(
             let addr = SocketAddr::new(ip, port);
             dials.push(
                 async move {
+                    // verif-hooks: resolve `TcpStream::connect` below to the connector shim,
+                    // which is `tokio::net::TcpStream::connect` unless the verification
+                    // harness registered a connector on this thread.
+                    #[cfg(feature = "verif-hooks")]
+                    use crate::verif_hooks::dial::TcpStream;
                     trace!("connecting TCP stream");
                     let stream = time::timeout(DIAL_ENDPOINT_TIMEOUT, TcpStream::connect(addr))
                         .await
@@ -320,6 +325,8 @@ async fn dial_happy_eyeballs(
             addr = resolve_stream.next(), if !resolve_stream_finished => {
                 match addr {
                     Some(Ok(ip)) => {
+                        #[cfg(feature = "verif-hooks")]
+                        crate::verif_hooks::event("dial.queue_push", &[("ip", ip.to_string())]);
                         queue.push_back(ip);
                         if !started {
                             // If no connection attempt has been started, and a non-preferred
@@ -348,6 +355,16 @@ async fn dial_happy_eyeballs(
             () = &mut next_dial_delayed_until, if next_dial_delayed_until.is_some() => {},
         }
     }
+}
+
+/// verif-hooks: unchanged pass-through to [`dial_happy_eyeballs`].
+#[cfg(feature = "verif-hooks")]
+pub(crate) async fn verif_dial_happy_eyeballs(
+    dns_resolver: &DnsResolver,
+    url: &Url,
+    prefer_ipv6: bool,
+) -> Result<TcpStream, DialError> {
+    dial_happy_eyeballs(dns_resolver, url, prefer_ipv6).await
 }
 
 /// Removes the next address to attempt, preferring `*next_is_v6`'s family and
